@@ -282,12 +282,12 @@ def materialise(world, scratch):
         elif k == "file" and n.get("linkto"):
             os.link(paths[n["linkto"]], p)
         elif k == "file":
-            if n.get("zip") is not None:
+            if n.get("zip") is not None and (n.get("iszip", True) or n["zip"]):
                 write_zip(p, n["zip"])
-                if n.get("truncate") is not None:
+                if n.get("truncate") is not None and n["truncate"] >= 0:
                     with open(p, "r+b") as f:
                         f.truncate(n["truncate"])
-                if n.get("flip") is not None:
+                if n.get("flip") is not None and n.get("hasflip", True):
                     with open(p, "r+b") as f:
                         data = bytearray(f.read())
                         off = n["flip"] if n["flip"] >= 0 else len(data) + n["flip"]
